@@ -11,6 +11,7 @@ HOSTILE = ("isolated", "bionly", "bow", "bichain", "multidistrict", "onedistrict
 # "deepcollider" is requested explicitly by the separation workloads
 
 
+ALLOW_ODD = False  # graph-level workloads switch this on: node names that are not Python identifiers (IL-6, HLA DR)
 ALLOW_PREFIXED = True  # transport / counterfactual-transport workloads switch this off: there a name T_x IS a selection node
 
 
@@ -28,8 +29,11 @@ def names(n, rng=None, unsorted=False, prefixed=False):
 def random_admg(rng, n, hostile=None, p_di=None, p_bi=None):
     """Random ADMG description; ``hostile`` forces one of the hostile classes."""
     if hostile is None:
-        hostile = rng.choice(HOSTILE + (("names_prefixed",) if ALLOW_PREFIXED else ()))
+        hostile = rng.choice(HOSTILE + (("names_prefixed",) if ALLOW_PREFIXED else ()) + (("names_odd",) if ALLOW_ODD else ()))
     nm = names(n, rng, unsorted=(hostile == "names_unsorted"), prefixed=(hostile == "names_prefixed" and ALLOW_PREFIXED))
+    if hostile == "names_odd" and n <= 9:
+        # names a biologist would use: not identifiers, with blanks, dashes, digits first, mixed case
+        nm = ["IL-6", "STAT3", "HLA DR", "TNF", "NF-kB", "9p21", "p53", "Variable", "a b"][:n]
     order = nm[:]
     rng.shuffle(order)  # topological order
     p_di = rng.choice(DENSITIES) if p_di is None else p_di
